@@ -1,1 +1,80 @@
 // verification harness (compiled into ntpd/src/daemon/config/mod.rs under cfg(all(test, pendulum_project_ntpd_rs_verif)))
+//
+// Harness for spec/ConfigThresholds.tla (C39), path "daemon" and the structural classes: loads the TOML document
+// generated for each class with toml::from_str::<Config>, runs Config::check on an accepted configuration (both under
+// catch_unwind) and reports verdict ok / err / panic, whether check() returned, and the class (none / zero / pos / neg)
+// of the forward / backward limit of the threshold setting named by the class.
+#![allow(clippy::all, dead_code)]
+
+use super::*;
+use ntp_proto::NtpDuration;
+use serde_json::{Value, json};
+
+#[path = "/verif/harness/common/util.rs"]
+mod util;
+
+fn cls(d: Option<NtpDuration>) -> &'static str {
+    match d {
+        None => "none",
+        Some(d) if d < NtpDuration::ZERO => "neg",
+        Some(d) if d == NtpDuration::ZERO => "zero",
+        Some(_) => "pos",
+    }
+}
+
+fn load(doc: &str, key: Option<&str>) -> (Value, Option<String>) {
+    let cfg = match util::catch(|| toml::from_str::<Config>(doc)) {
+        Err(p) => return (json!({"verdict": "panic", "fwd": "-", "bwd": "-", "check": "-"}), Some(format!("toml::from_str::<Config> panicked: {p}"))),
+        Ok(Err(e)) => return (json!({"verdict": "err", "fwd": "-", "bwd": "-", "check": "no-panic", "error": e.to_string()}), None),
+        Ok(Ok(cfg)) => cfg,
+    };
+    let (check, panic) = match util::catch(|| cfg.check()) {
+        Ok(_) => ("no-panic", None),
+        Err(p) => ("panic", Some(format!("Config::check panicked: {p}"))),
+    };
+    let base = &cfg.synchronization.synchronization_base;
+    let (f, b) = match key {
+        Some("single-step-panic-threshold") => (cls(base.single_step_panic_threshold.forward), cls(base.single_step_panic_threshold.backward)),
+        Some("startup-step-panic-threshold") => (cls(base.startup_step_panic_threshold.forward), cls(base.startup_step_panic_threshold.backward)),
+        Some("accumulated-step-panic-threshold") => (cls(base.accumulated_step_panic_threshold), cls(base.accumulated_step_panic_threshold)),
+        _ => ("-", "-"),
+    };
+    (json!({"verdict": "ok", "fwd": f, "bwd": b, "check": check}), panic)
+}
+
+fn replay(job: &Value) {
+    let rows = util::read_ndjson(job["input"].as_str().unwrap());
+    let mut out = util::NdjsonOut::create(job["output"].as_str().unwrap());
+    for r in rows {
+        let threshold = r["act"]["kind"] == json!("threshold");
+        let key = if threshold { r["act"]["c"]["key"].as_str() } else { None };
+        let (obs, panic) = load(r["doc"].as_str().unwrap(), key);
+        let mut d: Vec<String> = vec![];
+        if panic.is_some() {
+            d.push("panic".to_string());
+        }
+        if threshold {
+            for k in ["verdict", "fwd", "bwd"] {
+                if r["out"][k] != obs[k] {
+                    d.push(format!("out.{k}"));
+                }
+            }
+        } else if obs["verdict"] == json!("panic") {
+            d.push("out.verdict".to_string());
+        }
+        if obs["check"] == json!("panic") {
+            d.push("out.check".to_string());
+        }
+        out.put(&json!({"id": r["id"], "fields": d, "observed": obs, "panic": panic}));
+    }
+    out.finish();
+}
+
+#[test]
+fn verif_config() {
+    let job = util::job();
+    match job["mode"].as_str().unwrap() {
+        "replay" => replay(&job),
+        m => panic!("unknown mode {m}"),
+    }
+}
